@@ -663,12 +663,31 @@ def _handlers(out: list[str], rec: dict[str, tuple]) -> None:
 # events/txn_scope.py, events/recorder/base.py, persistence/sqlite/store/store.py : shape checks as booleans
 # ---------------------------------------------------------------------------------------------
 
+def _with_helpers(mod: ast.Module, fn: ast.FunctionDef, depth: int = 2) -> str:
+    """source of `fn` followed by the source of the same-module functions it calls (transitively, `depth` levels): a
+    shape that was moved into a private helper by an extract-function refactoring is still found.  The shape checks
+    below are containment tests; what the functions DO is decided by the correspondence (EventsM.trun against the real
+    store.transaction / recorder / bus on every run), not by these flags alone."""
+    funcs = {n.name: n for n in mod.body if isinstance(n, ast.FunctionDef)}
+    seen, order, frontier = {fn.name}, [fn], [fn]
+    for _ in range(depth):
+        nxt = []
+        for f in frontier:
+            for c in ast.walk(f):
+                if isinstance(c, ast.Call) and isinstance(c.func, ast.Name) and c.func.id in funcs and c.func.id not in seen:
+                    seen.add(c.func.id)
+                    order.append(funcs[c.func.id])
+                    nxt.append(funcs[c.func.id])
+        frontier = nxt
+    return "\n".join(ast.unparse(f) for f in order)
+
+
 def _scope(out: list[str]) -> None:
     rel = "events/txn_scope.py"
     mod = T._parse(rel)
-    commit = ast.unparse(T._find_func(mod.body, "commit_store_transaction", rel))
-    abort = ast.unparse(T._find_func(mod.body, "abort_store_transaction", rel))
-    begin = ast.unparse(T._find_func(mod.body, "begin_store_transaction", rel))
+    commit = _with_helpers(mod, T._find_func(mod.body, "commit_store_transaction", rel))
+    abort = _with_helpers(mod, T._find_func(mod.body, "abort_store_transaction", rel))
+    begin = _with_helpers(mod, T._find_func(mod.body, "begin_store_transaction", rel))
     commit_publishes = "for event in scope.pending:" in commit and "bus.publish(event)" in commit
     commit_outermost_only = "scope.depth -= 1\n    if scope.depth > 0:\n        return" in commit
     abort_publishes = "publish" in abort.replace("deferred event publication", "")
